@@ -526,6 +526,7 @@ var literalParsers = []litParser{
 	{name: "Regexp([a-z]+,0)", p: terminal.Regexp(nil, "ID", "identifier", "[a-z]+", 0), symbols: []string{"a", "b", "c", "1", " ", "Z"}, maxLen: [2]int{5, 6}, scan: scanLower},
 	{name: "Regexp(a(b*)c,1)", p: terminal.Regexp(nil, "ABC", "abc", "a(b*)c", 1), symbols: []string{"a", "b", "c", "1", " "}, maxLen: [2]int{5, 6}, scan: scanABC},
 	{name: "Regexp(foo|ba+r,0)", p: terminal.Regexp(nil, "KW", "keyword", "foo|ba+r", 0), symbols: []string{"foo", "bar", "a", "f", "b", "r", "-"}, maxLen: [2]int{5, 6}, scan: scanFooBar},
+	{name: "Regexp(^foo|ba+r,0)", p: terminal.Regexp(nil, "KW", "keyword", "^foo|ba+r", 0), symbols: []string{"foo", "bar", "a", "f", "b", "r", "-"}, maxLen: [2]int{4, 5}, scan: scanFooBar},
 	{name: "TimeDuration", p: terminal.TimeDuration(nil), symbols: []string{"0", "1", ".", "h", "m", "s", "n", "u", "µ", "μ", "-", "+", " "}, maxLen: [2]int{5, 6}, scan: scanDuration, family: durationFamily},
 }
 
@@ -648,6 +649,12 @@ func valueOf(n parsley.Node) any {
 
 func c08Run(env *explore.Env) *explore.Result {
 	res := explore.NewResult()
+	eachString(c08InterleavedSymbols, 3, func(idx int64, s string, _ []int) {
+		if env.Mine(idx) {
+			c08Interleaved(res, s, false)
+			res.Add("interleaved_contents", 1)
+		}
+	})
 	tierIdx := 0
 	if env.Thorough() {
 		tierIdx = 1
@@ -692,6 +699,60 @@ func c08Run(env *explore.Env) *explore.Result {
 	return res
 }
 
+// c08Interleaved: several regexp-based literal parsers used in turn on ONE reader and context (as the alternatives of
+// a Choice are), every ordered pair A,B called as A,B,A,B at every offset; each answer is held to the same scanner as
+// when the parser has the reader to itself. What a reader remembers about one expression must not answer for another.
+var c08InterleavedSymbols = []string{"1", ".", "5", "a", "'", "h", " "}
+
+func c08Interleaved(res *explore.Result, content string, verbose bool) {
+	var ps []*litParser
+	for i := range literalParsers {
+		switch literalParsers[i].name {
+		case "Integer", "Float", "Char", "Regexp([a-z]+,0)", "TimeDuration":
+			ps = append(ps, &literalParsers[i])
+		}
+	}
+	raw := []byte(content)
+	d := bytes.Replace(raw, []byte("\r\n"), []byte("\n"), -1)
+	cs := c08Case{"interleaved", strconv.Quote(content)}
+	for _, a := range ps {
+		for _, b := range ps {
+			if a == b {
+				continue
+			}
+			fs, _, r, base := place(placements[0], "f", raw)
+			ctx := parsley.NewContext(fs, r)
+			for o := 0; o <= len(d); o++ {
+				for step, lp := range []*litParser{a, b, a, b} {
+					exp := lp.scan(d, o)
+					res.Add("transitions", 1)
+					var node parsley.Node
+					var err parsley.Error
+					where := fmt.Sprintf("%s (call %d of the sequence %s, %s, %s, %s on one reader) on %s at offset %d", lp.name, step+1, a.name, b.name, a.name, b.name, q(content), o)
+					if pm := guard(func() { node, _, err = lp.p.Parse(ctx, data.EmptyIntMap, parsley.Pos(base+o)) }); pm != "" {
+						res.Violate("panic:"+lp.name, where+": panic: "+pm, cs)
+						return
+					}
+					if exp.unspecified {
+						continue
+					}
+					switch {
+					case exp.ok != (node != nil):
+						res.Violate("interleaved-parsers-on-one-reader:"+lp.name, fmt.Sprintf("%s: got %s, the scanner expects ok=%v end=%d value=%v", where, c08Show(node, err, base), exp.ok, exp.end, exp.val), cs)
+						return
+					case exp.ok && (int(node.ReaderPos())-base != exp.end || !valEqual(valueOf(node), exp.val)):
+						res.Violate("interleaved-parsers-on-one-reader:"+lp.name, fmt.Sprintf("%s: got %s, the scanner expects end=%d value=%#v", where, c08Show(node, err, base), exp.end, exp.val), cs)
+						return
+					}
+				}
+			}
+		}
+	}
+	if verbose {
+		res.Notes = append(res.Notes, "interleaved sequences of "+fmt.Sprint(len(ps))+" parsers on "+q(content)+" agree with the scanners")
+	}
+}
+
 func c08Replay(raw json.RawMessage) *explore.Result {
 	res := explore.NewResult()
 	var c c08Case
@@ -702,6 +763,10 @@ func c08Replay(raw json.RawMessage) *explore.Result {
 	s, err := strconv.Unquote(c.Content)
 	if err != nil {
 		res.Notes = append(res.Notes, "bad case content")
+		return res
+	}
+	if c.Parser == "interleaved" {
+		c08Interleaved(res, s, true)
 		return res
 	}
 	for pi := range literalParsers {
@@ -716,8 +781,8 @@ func init() {
 	explore.Register(&explore.Check{
 		ID:    "C08",
 		Level: "model_checking",
-		Rule: "for each of 19 literal-parser configurations: every byte string of 0..N symbols over that literal's alphabet (syntax characters + the bytes that drive its edge branches, incl. multi-byte runes, invalid UTF-8, CR/LF) parsed at EVERY offset, plus complete boundary families (int64/uint64 edges in decimal/hex/octal, float64 overflow/underflow exponents, every escape form incl. surrogates and out-of-range code points, durations around +-2^63 ns); " +
-			"oracle: hand-written scanner of the documented syntax + strconv/time/utf8 conversions; state = one byte string; transition = one Parse call at one offset; non-trivial = a string in which at least one offset holds an accepted literal",
+		Rule: "for each of 20 literal-parser configurations: every byte string of 0..N symbols over that literal's alphabet (syntax characters + the bytes that drive its edge branches, incl. multi-byte runes, invalid UTF-8, CR/LF) parsed at EVERY offset, plus complete boundary families (int64/uint64 edges in decimal/hex/octal, float64 overflow/underflow exponents, every escape form incl. surrogates and out-of-range code points, durations around +-2^63 ns); " +
+			"plus every ordered pair of five regexp-based parsers called A,B,A,B on one reader at every offset of every string of <= 3 symbols; oracle: hand-written scanner of the documented syntax + strconv/time/utf8 conversions; state = one byte string; transition = one Parse call at one offset; non-trivial = a string in which at least one offset holds an accepted literal",
 		Assume: []string{
 			"the documented syntax of each literal is the one its parser's pattern states (re-implemented by hand in mc/ix/c08.go); strconv.ParseInt/ParseFloat, time.ParseDuration and unicode/utf8 are the conversion oracles",
 			"where the documentation is silent only totality and position sanity are judged: raw CR/LF or raw invalid UTF-8 inside a double-quoted string, a character literal that is a lone backslash",
